@@ -59,6 +59,17 @@ def run(ctx):
 
     # ---- C10.6 Expect handling in new_request
     expect_rule(ctx, "C10.6")
+
+    # ---- C10.9 a malformed version token never reaches the application: every token the version parser accepts is literally `HTTP/x.y`
+    # for the version it yields (the parser's table, C02.2, taken over: `HTTP/+1.1` or `HTTP/01.1` read as 1.1 is a malformed request delivered)
+    import rules_C02, engine as engine_
+    c9 = engine_.Ctx("C10", "quick", facts, 0)
+    try:
+        rules_C02.run(c9)
+        n9 = engine_.take_over(ctx, c9.obs, lambda o: o.rule == "C02.2" and o.key.endswith("|literal-digits-agree"), "C10.9")
+        ctx.floor("C10.9 obligations taken from the version parser's table", n9, 1)
+    except CheckerError as e:
+        raise CheckerError("C10.9 (the version parser's table could not be evaluated): %s" % e)
     return {}
 
 
